@@ -37,9 +37,10 @@ def r1_user_data_writers(r, facts):
         if g.path == life.SUBMIT_CLOSURE:
             e = resolve_upvars(facts, g, e)
             r.require(e[0] == 'call' and e[1] == life.USER_DATA, 'writer:submit-closure', 'operation submissions are not tagged with State::user_data(state): %s' % (e,), g.where(loc))
-        elif g.path in BOOKKEEPERS:
-            want = facts.const(BOOKKEEPERS[g.path])
-            r.require(e[0] == 'const' and e[1] == want, 'writer:%s' % g.path, 'bookkeeping submission carries %s instead of %s' % (e, BOOKKEEPERS[g.path]), g.where(loc))
+        elif g.path in BOOKKEEPERS or any(bk.split('::{closure')[0] == g.path for bk in BOOKKEEPERS):
+            # (a bookkeeper's closure body may have been folded into the function that owns it)
+            want = facts.const(BOOKKEEPERS.get(g.path) or [v for bk, v in BOOKKEEPERS.items() if bk.split('::{closure')[0] == g.path][0])
+            r.require(e[0] == 'const' and e[1] == want, 'writer:%s' % g.path, 'bookkeeping submission carries %s instead of the reserved constant %d' % (e, want), g.where(loc))
         else:
             r.bad('writer:%s' % g.path, 'unexpected writer of sqe.user_data (an operation could be tagged with a foreign or reserved value)', g.where(loc))
     for need in [life.SUBMIT_CLOSURE] + list(BOOKKEEPERS):
